@@ -60,3 +60,4 @@ Lemma src_copy_base_forwards_all : covers (copy_base src_csrc) all_base_opts = t
 Proof. reflexivity. Qed.
 Lemma src_copy_full_forwards_all : covers (copy_full src_csrc) all_full_opts = true.
 Proof. reflexivity. Qed.
+
